@@ -19,6 +19,7 @@ mod c05x;
 mod c10;
 mod c11;
 mod c13;
+mod c16;
 mod c17;
 mod c08;
 mod c09;
@@ -60,7 +61,7 @@ fn main() {
     let cfg = Cfg { prop: prop.clone(), thorough, seed, par, replay };
     // worker threads of OxiDD managers get 1 GiB stacks by default; keep them small
     if std::env::var("OXIDD_STACK_SIZE").is_err() {
-        unsafe { std::env::set_var("OXIDD_STACK_SIZE", "16777216") };
+        unsafe { std::env::set_var("OXIDD_STACK_SIZE", "2097152") };
     }
     if prop == "DBG" {
         // vrun dbg <tier-ignored> --replay file : run a history in-process with dumps
@@ -106,6 +107,7 @@ fn main() {
         "C10" => c10::run(&cfg),
         "C11" => c11::run(&cfg),
         "C13" => c13::run(&cfg),
+        "C16" => c16::run(&cfg),
         "C17" => c17::run(&cfg),
         "C06" => c06::run(&cfg),
         _ => {
